@@ -111,6 +111,45 @@ async fn run_history(dir: String, idx: usize, hist: Vec<usize>) -> Outcome {
     Outcome { hist, verdict, ambiguous, backend_calls: calls_expected, cache_hits: hits }
 }
 
+/// Placeholder substitution: the external command must receive exactly the user name and the password the peer
+/// presented, whatever they contain (including the placeholders themselves).
+fn substitution_grid(chk: &Check) -> usize {
+    let dir = format!("{}/target/c07-subst-{}", VERIF_DIR, std::process::id());
+    let _ = std::fs::create_dir_all(&dir);
+    let pairs: Vec<(&str, &str)> = vec![
+        ("u", "p"),
+        ("#PASS#", "x"),
+        ("a#PASS#b", "x"),
+        ("#USER#", "x"),
+        ("u", "#USER#"),
+        ("u", "#PASS#"),
+        ("#USER##PASS#", "#PASS##USER#"),
+        ("#PASS", "S#"),
+        ("", ""),
+        ("u v", "p q"),
+    ];
+    let rt = tokio::runtime::Builder::new_current_thread().enable_all().build().unwrap();
+    for (i, (u, p)) in pairs.iter().enumerate() {
+        let script = format!("{dir}/s{i}.sh");
+        let logf = format!("{dir}/l{i}.log");
+        std::fs::write(&script, format!("#!/bin/sh\nprintf '%s|%s\\n' \"$1\" \"$2\" >> {logf}\nexit 1\n")).unwrap();
+        let yaml = format!("required: true\ncmd: [\"/bin/sh\", \"{script}\", \"#USER#\", \"#PASS#\"]\ncache:\n  timeout: 0\n");
+        let got = rt.block_on(async {
+            let mut auth: AuthData = serde_yaml::from_str(&yaml).expect("auth config");
+            auth.init().await.expect("init");
+            auth.check(&Some((u.to_string(), p.to_string()))).await
+        });
+        let seen = std::fs::read_to_string(&logf).unwrap_or_default();
+        let want = format!("{}|{}\n", u, p);
+        if seen != want || got {
+            let class = if seen.is_empty() { "backend-not-consulted" } else { "backend-asked-about-other-credentials" };
+            chk.violation("auth.command", class, format!("peer presented user {:?} password {:?}; the command received {:?} (accepted: {got})", u, p, seen.trim_end()), json!({"user": u, "password": p, "received": seen}));
+        }
+    }
+    let _ = std::fs::remove_dir_all(&dir);
+    pairs.len()
+}
+
 /// Trust anchors a TLS connector ends up with, for every kind of `ca` setting. Only an absent `ca` may mean "the
 /// public roots" (that is the documented default); a configured file must contribute exactly its certificates or be
 /// refused - otherwise upstreams are accepted whose certificate does not chain to the configured CA.
@@ -170,6 +209,7 @@ fn trust_anchor_grid(chk: &Check) -> Vec<serde_json::Value> {
 fn check() {
     let chk = Check::new("C07");
     let trust = trust_anchor_grid(&chk);
+    let subst = substitution_grid(&chk);
     let maxlen = if chk.thorough() { 5 } else { 4 };
     let mut hists: Vec<Vec<usize>> = vec![];
     let mut cur: Vec<Vec<usize>> = vec![vec![]];
@@ -229,7 +269,7 @@ fn check() {
         "states": distinct.len(), "transitions": outcomes.iter().map(|o| o.hist.len() as u64).sum::<u64>(), "traces_validated_against_impl": n - ambiguous,
         "evaluations": n, "distinct_nontrivial": hits,
         "rule": format!("all event histories of length <= {} over {:?} that end in a check and contain >= 2 checks, each on a fresh real AuthData with an external command backend and cache.timeout = 1 s (real clock). non-trivial = checks answered from the cache. states = distinct (backend calls, cache hits, ok) triples", maxlen, EVENTS),
-        "trust_anchor_grid": trust, "histories": n, "cache_hits": hits, "backend_calls": calls, "discarded_for_timing": ambiguous,
+        "trust_anchor_grid": trust, "placeholder_substitution_pairs": subst, "histories": n, "cache_hits": hits, "backend_calls": calls, "discarded_for_timing": ambiguous,
         "samples": [{"history": ["check(u1,p1)", "check(u1,p2)"], "expect": "second check reaches the backend and is refused"}, {"history": ["check(u1,p1)", "flip(u1,p1)", "wait1.3", "check(u1,p1)"], "expect": "backend asked again after expiry: refused"}],
     });
     chk.finish(
